@@ -244,6 +244,12 @@ func (fr *frame) applyContract(x ssa.Instruction, sig *types.Signature, fc *Func
 			if i < len(names) && a.Loc == nil && a.Fn == nil && a.Clo == nil && a.It == nil {
 				env.vars[names[i]] = valTV(a)
 			}
+			if i < len(names) && a.Clo != nil {
+				env.vars[names[i]] = TV{Ty: a.Ty, Fs: []TV{}, Pred: fr.closurePred(a.Clo.Fn.(*ssa.Function), a.Clo.Bindings, h)}
+			}
+			if i < len(names) && a.Fn != nil {
+				env.vars[names[i]] = TV{Ty: a.Ty, Fs: []TV{}, Pred: fr.closurePred(a.Fn, nil, h)}
+			}
 		}
 		return env
 	}
@@ -286,6 +292,15 @@ func (fr *frame) applyContract(x ssa.Instruction, sig *types.Signature, fc *Func
 		post = post.set(alAKey, vc.fresh("Hc!"+alAKey, fr.w.heapSort[alAKey]))
 	}
 	st.heap = post
+	for k := range fr.w.heapSort {
+		if strings.HasPrefix(k, "E:") {
+			if _, touched := post.writes[k]; touched || post.writes["*"] > pre.writes["*"] {
+				if a, b := post.get(k), pre.get(k); a != b {
+					vc.noteSucc(k, a, b)
+				}
+			}
+		}
+	}
 	fr.allocGrows(pre, post)
 	// results
 	var res *Val
@@ -668,6 +683,7 @@ func (fr *frame) appendBuiltin(x ssa.Instruction, c *ssa.CallCommon, args []*Val
 		vc.assume(g, Implies(And(nz, fits), Forall([]Binder{{j.Op, SInt}}, Implies(Or(Lt(j, lo), Ge(j, hi)),
 			Eq(cur, Select(Select(E, SlArr(s.T)), j))), []*Term{cur})))
 	}
+	vc.noteSucc(key, E2, E)
 	// prefix equality as a named fact (used by the fold congruences)
 	pe := vc.prefEq(key)
 	vc.assume(g, App(pe, SBool, E2, r, E, s.T, ln))
@@ -789,4 +805,50 @@ func autoInlinable(fn *ssa.Function, depth int) bool {
 		}
 	}
 	return n <= 100
+}
+
+// closurePred: the predicate denoted by a closure whose contract has the
+// form `ensures result == e`; free variables are bound to the captured values.
+func (fr *frame) closurePred(fn *ssa.Function, bindings []ssa.Value, h *Heap) func(env *Env, args []TV) (TV, error) {
+	fc := fr.w.contractFor(fn)
+	return func(env *Env, args []TV) (TV, error) {
+		if fc == nil {
+			return TV{}, fmt.Errorf("closure %s has no contract", relName(fn))
+		}
+		var body Expr
+		for _, cl := range fc.Ensures {
+			if b, ok := cl.E.(EBin); ok && b.Op == "==" {
+				if id, ok := b.L.(EIdent); ok && (id.Name == "result" || (fn.Signature.Results().Len() == 1 && id.Name == fn.Signature.Results().At(0).Name())) {
+					body = b.R
+				}
+			}
+		}
+		if body == nil {
+			return TV{}, fmt.Errorf("contract of closure %s has no clause `ensures result == e`", relName(fn))
+		}
+		sub := &Env{w: fr.w, pkg: fc.Pkg, vars: map[string]TV{}, used: fr.vc.used, heap: env.heap, old: env.old, inOld: env.inOld}
+		if len(args) != len(fn.Params) {
+			return TV{}, fmt.Errorf("closure %s takes %d arguments", relName(fn), len(fn.Params))
+		}
+		for i, p := range fn.Params {
+			sub.vars[p.Name()] = args[i]
+		}
+		for i, fv := range fn.FreeVars {
+			b := fr.get(bindings[i])
+			// captured variables are pointers to cells (or private locals)
+			if b.Loc != nil {
+				sub.vars[fv.Name()] = valTV(fr.loadLoc(b.Loc, &State{reach: True, heap: h}, nil))
+				continue
+			}
+			if pt, ok := types.Unalias(fv.Type()).Underlying().(*types.Pointer); ok && b.T != nil {
+				if _, isSt := fr.w.repoStruct(pt.Elem()); !isSt && fr.w.sortOf(pt.Elem()) != "" {
+					key := fr.w.cellHeap(pt.Elem())
+					sub.vars[fv.Name()] = TV{T: Select(h.get(key), b.T), Ty: pt.Elem()}
+					continue
+				}
+			}
+			sub.vars[fv.Name()] = valTV(b)
+		}
+		return sub.Compile(body)
+	}
 }
